@@ -579,7 +579,9 @@ class Tr:
             g, t, _ = env.vals[self.getters[k]]
             return (g, t)
         if k in self.bind:
-            return self.bind[k]
+            term, ty = self.bind[k]
+            # a bound term may read the CURRENT value of a state variable: {$name}
+            return (re.sub(r'\{(\$\w+)\}', lambda m: env.vals[m.group(1)][0], term), ty)
         kind = e[0]
         if kind == 'num':
             t = e[1].rstrip('uUlLfF')
@@ -872,6 +874,8 @@ class Tr:
         kk = key(init, env)
         self.symbolic.append('%s %s = %s' % (ty, name, kk[:50]))
         e2.alias[name] = kk; e2.vals.pop(name, None)
+        if tt is not None and kk not in self.bind:
+            self.bind = dict(self.bind); self.bind[kk] = tt      # the pointer's truth value, as translated at the declaration
         return R(e2)
 
     def t_expr(self, s, R, env, ctx):
